@@ -34,6 +34,18 @@ STAGES['C14'] = {
                                                              SALTS='<<"sixteen", "one", "long", "zeros">>', SUFFIXES='<<"plain", "printable", "b64", "long">>',
                                                              VIAS='{"smtp", "client", "custom"}', ABORTS='{"", "t4", "drop"}'))],
 }
+def extra_scenarios(tier, seed):
+    """C15: the adversary meets a mail.Client (built-in SCRAM type) that has completed a valid exchange on an earlier connection;
+    it may replay what it signed there. Every script below must fail: none presents a signature valid for the running exchange."""
+    out = []
+    scripts = [['staleFinal', 'ok235'], ['staleFinal'], ['empty', 'staleFinal', 'ok235'], ['empty', 'validFirst', 'staleFinal', 'ok235'], ['emptyFinal', 'ok235'],
+               ['staleFinal', 'empty', 'validFirst', 'staleFinal', 'ok235'], ['empty', 'validFirst', 'validFinal', 'ok235']]
+    for mech in ('SCRAM-SHA-256', 'SCRAM-SHA-1'):
+        for s in scripts:
+            out.append(dict(kind='adv', mech=mech, script=s, prior='client', sent=[], ok=(s == scripts[-1])))
+    return out
+
+
 SEED_PASSES = {('C14', 'thorough'): 8, ('C15', 'thorough'): 3}
 INVS_BY_BASE = {'SaslHonest': ['AcceptedIffRight', 'Emit']}
 SENS_INVS = ['NoViolation', 'SuccessMeansVerified']
